@@ -591,6 +591,17 @@ class Program:
             self._init(units)
             self.inlined = done
 
+    def hir_items(self):
+        """(body, hir) for every function with a source-level view; a helper that was spliced into its callers is
+        attributed to the first of them (its own body no longer exists)"""
+        owner = {}
+        for u in self.units.values():
+            owner.update(u.get("inlined_hir") or {})
+        for bid, h in self.hir.items():
+            b = self.bodies.get(bid) or self.bodies.get(owner.get(bid))
+            if b is not None:
+                yield b, h
+
     def owners_of(self, path):
         """For a library function that did not exist when the rules were reviewed (and that could not be spliced into
         its callers - it is passed as a function value, recursive, too large): the reviewed functions it is reachable
